@@ -211,6 +211,8 @@ def run_into(rep, group, per_condition_timeout=30, procs=None):
                 rep.counts['discharged'] += 1
             else:
                 rep.inconclusive.append('CrossHair finding %s: %s' % (label, v))
+        rep.cov.setdefault('crosshair_seconds_per_condition', {})[label] = r['wall']
+        rep.cov['crosshair_per_condition_cap_s'] = per_condition_timeout
         if len(rep.samples) < 12 and kind != 'twin':
             rep.sample(dict(crosshair=label, verdict=v, wall_s=r['wall'], detail=r['detail'][:160] if v != 'confirmed' else ''))
     import shutil
